@@ -256,6 +256,14 @@ def step(draw, info: Info, kinds):
         if e == "env" and info.kind[t] == "custom":
             e = "state"
         return dict(k="op", entry=e, targets=[t], op=draw(op_for_kind(info.kind[t])))
+    if k in ("bs", "phase"):
+        focks = [s for s in mem if info.kind[s] == "fock"] if ce else []
+        if k == "bs" and len(focks) >= 2:
+            ops = draw(st.permutations(focks))
+            return dict(k="op", entry=ce, targets=list(ops[:2]), op=dict(type="comp:BS", params=dict(eta=draw(angle))))
+        allf = [s for s in subs if info.kind[s] == "fock"]
+        t = draw(st.sampled_from(allf))
+        return dict(k="op", entry=entry_for([t]), targets=[t], op=dict(type="fock:PhaseShift", params=dict(phi=draw(angle))))
     if k == "bigop":
         focks = [s for s in subs if info.kind[s] == "fock"]
         t = draw(st.sampled_from(focks))
@@ -274,6 +282,22 @@ def step(draw, info: Info, kinds):
             return dict(k="op", entry="state", targets=[t], op=draw(op_for_kind(info.kind[t])))
         c = draw(s_)
         return dict(k="op", entry=ce, targets=c["targets"], op=c["op"])
+    if k == "struct_rep":
+        calls = ["expand", "contract", "contract"]
+        if info.spec["envs"]:
+            calls += ["env_expand", "env_contract"]
+        if ce:
+            calls += ["ce_expand"]
+        call = draw(st.sampled_from(calls))
+        if call in ("expand", "contract"):
+            d = dict(k="struct", call=call, sub=draw(st.sampled_from(subs)))
+            if call == "contract":
+                d["final"] = draw(st.sampled_from([0, 1]))
+            return d
+        if call.startswith("env_"):
+            return dict(k="struct", call=call, env=f"e{draw(st.integers(0, len(info.spec['envs']) - 1))}")
+        n = draw(st.integers(1, min(3, len(mem))))
+        return dict(k="struct", call=call, ce=ce, members=list(draw(st.permutations(mem))[:n]))
     if k == "struct":
         calls = ["expand", "contract"]
         if info.spec["envs"]:
